@@ -84,6 +84,25 @@ def gen_cases(tier, rng):
                 for t in range(5):
                     i = rng.randrange(wl)
                     cases.append("cv09 cmda %d %d 0 %s %d:%d:%d" % (off, num, hexs(w), t, i, w[i] ^ 0xff))
+    # address verifiers on a pointer cell that lies in sandbox memory: the cell (4 bytes at off) holds a representation; the
+    # adversary rewrites it at range.fetch (tick 0) and at the moment the back end is consulted inside the range check (tick 1)
+    TOT = 1 << 32
+
+    def le4(v):
+        return [(v >> (8 * i)) & 255 for i in range(4)]
+    for size in (0, 1, 16, 64, 4096):
+        for rep in (0, 1, 16, TOT - 4096, TOT - size, TOT - size + 1 if size else TOT - 1, TOT - 1, rng.randrange(1, TOT)):
+            rep %= TOT
+            for off in (0, 3):
+                w = [rng.randrange(256) for _ in range(off)] + le4(rep) + [rng.randrange(256) for _ in range(2)]
+                cases.append("cv09 cvba %d %d 0 %s -" % (off, size, hexs(w)))
+                cases.append("cv09 cva %d 0 0 %s -" % (off, hexs(w)))
+                for new in (0, 16, TOT - 1, TOT - size + 1 if size > 1 else TOT - 2, TOT - 16, rng.randrange(1, TOT)):
+                    nb = le4(new % TOT)
+                    for t in (0, 1, 2):
+                        sched = ",".join("%d:%d:%d" % (t, off + i, nb[i]) for i in range(4))
+                        cases.append("cv09 cvba %d %d 0 %s %s" % (off, size, hexs(w), sched))
+                    cases.append("cv09 cvba %d %d 0 %s %s" % (off, size, hexs(w), "0:%d:%d,1:%d:%d" % (off, nb[0], off + 3, nb[3])))
     return cases
 
 
